@@ -43,6 +43,7 @@ mod vk_vec_n4 {
         kani::assume(len <= N);
         let it = mk(len);
         let c: usize = kani::any();
+        let fin: bool = kani::any();                          // (chosen up front: the symbolic inputs then come in a fixed order)
         kani::assume(c < usize::MAX);                          // no-wrap regime
         it.counter().store(c);
         let owned_from = if c < len { c } else { len };
@@ -59,7 +60,6 @@ mod vk_vec_n4 {
             }
             None => assert!(c >= len, "[C01 none-iff] None only past the end"),
         }
-        let fin: bool = kani::any();
         if fin { drop(it); } else { let s = it.into_seq_iter(); drop(s); }
         chk_ledger(len, owned_from, &delivered);
     }
@@ -79,6 +79,7 @@ mod vk_vec_n4 {
         let owned_from = if c < len { c } else { len };
         let mut delivered = [false; N];
         let take: usize = kani::any();                         // how many items of the chunk the caller consumes before dropping it
+        let fin: bool = kani::any();                          // (chosen up front: the symbolic inputs then come in a fixed order)
         {
         let r = it.next_chunk(n);
         kani::cover!(r.is_some() && take == 0, "chunk dropped unconsumed");
@@ -108,7 +109,6 @@ mod vk_vec_n4 {
             None => assert!(c >= len, "[C01 C03 none-iff] None only past the end"),
         }
         }
-        let fin: bool = kani::any();
         if fin { drop(it); } else { let s = it.into_seq_iter(); drop(s); }
         chk_ledger(len, owned_from, &delivered);
     }
@@ -128,6 +128,7 @@ mod vk_vec_n4 {
         let owned_from = if c < len { c } else { len };
         let mut delivered = [false; N];
         let take: usize = kani::any();
+        let fin: bool = kani::any();                          // (chosen up front: the symbolic inputs then come in a fixed order)
         {
             let mut buf = it.buffered_iter(n);
             let r = buf.next();
@@ -155,7 +156,6 @@ mod vk_vec_n4 {
                 None => assert!(c >= len, "[C01 C03 none-iff] None only past the end"),
             }
         }
-        let fin: bool = kani::any();
         if fin { drop(it); } else { let s = it.into_seq_iter(); drop(s); }
         chk_ledger(len, owned_from, &delivered);
     }
@@ -169,6 +169,7 @@ mod vk_vec_n4 {
         kani::assume(len <= N);
         let it = mk(len);
         let c: usize = kani::any();
+        let fin: bool = kani::any();                          // (chosen up front: the symbolic inputs then come in a fixed order)
         it.counter().store(c);
         let owned_from = if c < len { c } else { len };
         let delivered = [false; N];
@@ -176,7 +177,6 @@ mod vk_vec_n4 {
         kani::cover!(c < len, "skipped with elements remaining");
         assert!(it.next_id_and_value().is_none(), "[C06 skip-end] a pull after skip_to_end reports the end");
         assert!(it.try_get_len() == Some(0), "[C06 C11 skip-len] no remaining length after skip_to_end");
-        let fin: bool = kani::any();
         if fin { drop(it); } else {
             let mut s = it.into_seq_iter();
             // after a skip the remainder is a (possibly empty) suffix of the undelivered elements
